@@ -196,7 +196,7 @@ Qed.
 Theorem step_refines l op : op <> OReverse -> step l op = spec_step l op.
 Proof.
   intro Hop.
-  destruct op as [i | i v | a b c vs | i | i v | v | vs | vs | i bad | v | | | v | v | | | other | v s0 e0]; cbn [step spec_step].
+  destruct op as [i | i v | a b c vs | i | i v | v | vs | vs | i bad | v | | | v | v | | | other | v s0 e0 | k t]; cbn [step spec_step].
   - (* get *) destruct i; reflexivity.
   - (* set *) destruct i as [i| |]; destruct v; reflexivity.
   - (* setslice *)
@@ -221,6 +221,7 @@ Proof.
   - reflexivity.
   - (* == *) reflexivity.
   - (* index with bounds *) reflexivity.
+  - (* iteration with an append under way *) reflexivity.
 Qed.
 
 (* C07 for the arrays: a raising call leaves the content exactly as it was *)
